@@ -25,7 +25,7 @@ func (c07) ID() string { return "C07" }
 
 func (c07) Budget(tier string) int {
 	if tier == "thorough" {
-		return 6000
+		return 24000
 	}
 	return 2240
 }
